@@ -31,20 +31,28 @@ def run(rep, tier, seed):
     vlib.run_stream(rep, "transforms", "transforms", "transforms", lines, oracle=transforms.oracle,
                     nontrivial=transforms.nontrivial, key=transforms.key)
     bool_stream(rep, tier, seed)
+    bool_stream(rep, tier, seed, name="transforms-array")
 
 
-def bool_stream(rep, tier, seed):
+def bool_stream(rep, tier, seed, name="transforms-bool"):
     """Sub-stream transforms-bool (oracle only: the Coq model has no boolean statements).  Programs that mix numerical
     and boolean statements (bool_assign_cst / bool_assign_var / bool_binary_op / bool_select / bool_assume /
     bool_assert, havoc and zext of booleans) go through dce / simplify / lower_safe_assertions / pipe in the harness;
     the printed CFG is judged by the leader / follower oracle of gen/transforms.py (booleans = extra 0/1 entries of
     the store)."""
     import os, re, random
-    name = "transforms-bool"
-    lines = transforms.gen_bool(seed, tier)
+    arr = name == "transforms-array"
+    lines = transforms.gen_arr(seed, tier) if arr else transforms.gen_bool(seed, tier)
     st = {"cases": len(lines), "oracle_violations": 0, "aborts": 0, "unanswered": 0, "distinct_nontrivial": 0}
     rep.cov["streams"][name] = st
-    rep.assumptions.append(
+    if arr:
+        rep.assumptions.append(
+            "transforms-array: no Coq model (array statements are outside coq/Ana); array_init / array_store (one cell, strong and "
+            "weak) / array_store_range / array_load / array_assign with constant element size through dce / simplify / "
+            "lower_safe_assertions / pipe and cfg::clone (q=clone), judged by the sampled leader/follower oracle only; arrays = "
+            "maps from indices to integers, a cell that array_init leaves undefined reads as an arbitrary value")
+    else:
+      rep.assumptions.append(
         "transforms-bool: no Coq model (boolean statements are outside coq/Ana); the real transformations are judged by the "
         "sampled leader/follower oracle only (40 executions per program in each direction); reference statements / ref_assert "
         "and boolean assignments of reference constraints are not generated")
@@ -81,7 +89,7 @@ def bool_stream(rep, tier, seed):
             except Exception as e:       # e.g. a statement the harness cannot print ("?")
                 wit, has_input = "the printed CFG cannot be interpreted (%s: %s)" % (type(e).__name__, e), False
         if wit is None:
-            if transforms.nontrivial_bool(line, a):
+            if (transforms.nontrivial_arr if arr else transforms.nontrivial_bool)(line, a):
                 nontriv.add(line)
             continue
         st["oracle_violations"] += 1
@@ -129,8 +137,8 @@ def replay(path):
     cf = os.path.join(d, "replay.case")
     open(cf, "w").write(line + "\n")
     impl = vlib.run_harness_resilient(hexe, (), cf, 1, 120).get(0, "MISSING")
-    if re.search(transforms.BOOL_KINDS, line) or re.search(r"\| F [^|]*\bb\d", line):
-        # sub-stream transforms-bool: the model does not know boolean statements
+    if re.search(transforms.BOOL_KINDS, line) or re.search(transforms.ARR_KINDS, line) or re.search(r"\| F [^|]*\bb\d", line):
+        # sub-streams transforms-bool / transforms-array: the model does not know boolean / array statements
         w = transforms.oracle(line, impl, None)
         print("input:          ", line)
         print("implementation: ", impl)
